@@ -1,3 +1,3 @@
 From Coq Require Import Extraction ExtrOcamlBasic.
 From Nitro Require Import Base.Bytes Base.Res Opt.Token Opt.Decl Opt.ParserModel Opt.ParserCore Opt.ParserSpec Opt.Vocab Opt.Run.
-Extraction "opt_model.ml" parse history spec assign env_word explain wf_items render arg_get wf_decl no_prefix_clash consistent init_st well_formed.
+Extraction "opt_model.ml" parse history spec assign env_word explain wf_items render arg_get wf_decl no_prefix_clash consistent init_st well_formed as_long dec_text.
